@@ -404,7 +404,8 @@ class BaseGroupBy(ABC):
         "Number each item in each group from 0 to the length of that group - 1"
     )
     def cumcount(self) -> pd.Series:
-        return self._grouper.cumcount(self._obj)
+        # (cumcount takes no values: its only argument is a row mask)
+        return self._grouper.cumcount()
 
     def ema(
         self,
